@@ -147,4 +147,43 @@ def summaryEndArg (N : Nat) : Int := N
 
 def isEmitting (p : Params) (s : State) : Bool := if p.intermittent then s.emitting else true
 
+/-! ### detection-only events
+
+Site-level sensors (`DefaultSiteLevelSensor.detect_emissions`) call `update_detection_records` on the
+emissions they detect without tagging them.  `Ev` adds that event kind; `runE` is the day loop over
+mixed events.  `Lemmas/EmissionE.lean` shows that detection-only events never influence anything but
+the two "initially detected" fields, so every theorem about `run` transfers to `runE`. -/
+
+inductive Ev
+  | tag (e : TagEv)
+  | detect (c : Nat)
+  deriving DecidableEq, Repr, Inhabited
+
+def applyEv (p : Params) (d : Int) : Ev → State → State
+  | .tag e, s => tag p d e s
+  | .detect c, s => if s.status = .active then detectRec d c s else s
+
+def dayE (p : Params) (d : Int) (evs : List Ev) (s : State) : State :=
+  update p (evs.foldl (fun s e => applyEv p d e s) (activate p d s))
+
+def runE (p : Params) (ev : Nat → List Ev) : Nat → State
+  | 0 => init
+  | n + 1 => dayE p n (ev n) (runE p ev n)
+
+/-- the tag requests among mixed events -/
+def tagsOf : List Ev → List TagEv
+  | [] => []
+  | .tag e :: r => e :: tagsOf r
+  | .detect _ :: r => tagsOf r
+
+/-- `ComponentLevelMethod.survey_site` (component_level_method.py:72-93): the components that receive
+a tagging call after a survey step — only when the survey completed, and only components whose
+detection report carries a measured rate > 0 (rates as scaled integers) -/
+def tagCalls (complete : Bool) (detections : List (Nat × Int)) : List Nat :=
+  if complete then (detections.filter (fun d => d.2 > 0)).map (·.1) else []
+
+/-- `Source._get_rep_delay` for a list of delays: `np.random.choice` picks one element; the drawn
+index is an input of the model -/
+def sampleDelay (l : List Int) (i : Nat) : Option Int := l[i % l.length]?
+
 end LdarModel.Emission
